@@ -451,6 +451,7 @@ class Interp(object):
             sstr._fresh[0] = 0
             sstr.BOUND_ORACLE[0] = self.tight_bound
             self.options.pop("fs", None)
+            self.options.pop("symfiles", None)
             for h in self.path_hooks:
                 h()
             outcome = None
